@@ -66,6 +66,16 @@ TEXT = {
   level_text="Generated per-goroutine plans of ListenStream/ListenPacket/Close calls on shared addresses are run concurrently 50 times each against the real ListenerManager; every call must return (5 s watchdog) and succeed, and the manager must accept a sequential listen+close on every address afterwards. A hit is classified by the blocked mutex sites.",
   level_note="The harness does not own the Go scheduler; interleavings are sampled by repetition. Not a model-checking result.",
  ),
+ "C09": dict(
+  technique="property-based testing (rapid) of generated configurations against the real main package in a child process, with an exhaustive (listener x key) probe matrix per configuration",
+  level_text="Generated YAML configurations (both formats, shared and duplicated key material, IPv4/IPv6, TCP/UDP) are loaded by the real RunOutlineServer in an executor process; for every configuration the complete matrix of listeners x key materials is probed with an independent client codec and compared with the ownership model derived from the configuration.",
+  level_note="The executor is injected with go test -overlay and only calls RunOutlineServer/loadConfig/Stop; authentication is observed through a recording ServiceMetrics wrapper.",
+ ),
+ "C10": dict(
+  technique="model-based property testing (rapid) with generated fault injection at every load stage; model = last successfully loaded configuration",
+  level_text="Generated sequences of reload attempts, each a generated configuration plus a generated fault (file, YAML, validation, bad cipher in service i / legacy key j, unbindable listener j of service i), run against the real main package; after every attempt the full endpoint x key matrix over everything ever mentioned is compared with the last configuration that loaded, and after Stop the process must be back to its baseline of goroutines and sockets.",
+  level_note="Faults are enumerated by generation over (stage, i, j), not by instrumenting the loader; one process per case.",
+ ),
 }
 def _na():
     from checks_table import CHECKS
